@@ -624,15 +624,20 @@ fn par_hash<T: Elem>(c: &dyn DynColl<T>, k: usize) -> String {
 
 fn par_mix<T: Elem>(c: &dyn DynColl<T>, vs: &[T]) -> String {
     let k = vs.len();
-    let barrier = Barrier::new(k + 1);
-    let (workers, own): (Vec<Option<Result<Hash256, Error>>>, Option<Hash256>) =
+    // `b`: an independently allocated, not yet hashed copy of what `c` shows. While the workers rebase their private
+    // clones onto it, a helper thread hashes it and the main thread hashes `c` itself (whose nodes the clones share).
+    let base: Option<Boxed<T>> = if k > 0 && c.len() <= 4096 { c.fresh_copy() } else { None };
+    let barrier = Barrier::new(k + 1 + base.is_some() as usize);
+    type W = Result<(Hash256, Option<String>), Error>;
+    let (workers, own): (Vec<Option<W>>, Option<Hash256>) =
         std::thread::scope(|s| {
             let barrier = &barrier;
+            let base = &base;
             let handles: Vec<_> = (0..k)
                 .map(|j| {
                     s.spawn(move || {
                         barrier.wait();
-                        catch_unwind(AssertUnwindSafe(|| -> Result<Hash256, Error> {
+                        catch_unwind(AssertUnwindSafe(|| -> W {
                             let mut x = c.clone_box();
                             let len = x.len();
                             if len > 0 {
@@ -641,32 +646,82 @@ fn par_mix<T: Elem>(c: &dyn DynColl<T>, vs: &[T]) -> String {
                                 }
                                 x.apply()?;
                             }
-                            Ok(x.root())
+                            let r = x.root();
+                            // further work on the thread's own handle (never printed, only checked): extend it,
+                            // hash it, rebase it on the independent copy that is being hashed concurrently, and
+                            // make sure it still shows, and hashes to, what it did before the rebase
+                            let mut bad = None;
+                            if let Some(b) = base {
+                                if let Some(Ok(())) = x.push(vs[j].clone()) {
+                                    x.apply()?;
+                                }
+                                let r2 = x.root();
+                                let before: Vec<T> = x.iter().cloned().collect();
+                                match x.rebase_on_dyn(&**b) {
+                                    Some(Ok(())) => {
+                                        let after: Vec<T> = x.iter().cloned().collect();
+                                        if after != before {
+                                            bad = Some("contents-after-rebase".to_string());
+                                        } else if x.len() != before.len()
+                                            || (0..before.len() + 1).any(|i| x.get(i).is_some() != (i < before.len()))
+                                        {
+                                            bad = Some("reads-after-rebase".to_string());
+                                        } else if x.root() != r2 {
+                                            bad = Some("root-after-rebase".to_string());
+                                        }
+                                    }
+                                    Some(Err(e)) => bad = Some(format!("rebase:{:?}", e).replace(' ', "")),
+                                    None => {}
+                                }
+                            }
+                            Ok((r, bad))
                         }))
                         .ok()
                     })
                 })
                 .collect();
+            let helper = base.as_ref().map(|b| {
+                s.spawn(move || {
+                    barrier.wait();
+                    catch_unwind(AssertUnwindSafe(|| b.root())).ok()
+                })
+            });
             barrier.wait();
             let own = catch_unwind(AssertUnwindSafe(|| c.root())).ok();
             let workers = handles
                 .into_iter()
                 .map(|h| h.join().ok().flatten())
                 .collect();
+            let helper_root = helper.map(|h| h.join().ok().flatten());
+            let own = match (own, helper_root) {
+                (Some(o), Some(Some(hr))) if hr != o => None, // the copy shows the same contents: same root
+                (Some(o), Some(None)) => { let _ = o; None }
+                (o, _) => o,
+            };
             (workers, own)
         });
     if own.is_none() || workers.iter().any(|r| r.is_none()) {
-        panic!("par_mix: a thread panicked");
+        panic!("par_mix: a thread panicked (or the independent copy hashed differently)");
     }
+    let mut mism: Vec<String> = Vec::new();
     let mut parts: Vec<String> = workers
         .into_iter()
         .flatten()
-        .map(|r| match r {
-            Ok(h) => hash_hex(&h),
+        .enumerate()
+        .map(|(j, r)| match r {
+            Ok((h, bad)) => {
+                if let Some(b) = bad {
+                    mism.push(format!("{}:{}", j, b));
+                }
+                hash_hex(&h)
+            }
             Err(e) => err(&e),
         })
         .collect();
     parts.extend(own.iter().map(hash_hex));
+    if !mism.is_empty() {
+        return format!("err:mismatch:private-rebase:{}", mism.join(";"));
+    }
     format!("ok:{}", parts.join(","))
 }
 
